@@ -21,6 +21,7 @@
 
 #include <sbepp/sbepp.hpp>
 
+#include <cerrno>
 #include <type_traits>
 
 #ifdef C12_CHECKED
@@ -290,6 +291,7 @@ struct evaluator
             char* e = nullptr;
             val v{};
             v.kind = val::integer;
+            errno = 0;
             if(*p == '-')
             {
                 v.k.kind = int_arg::ll;
@@ -301,6 +303,10 @@ struct evaluator
                 v.k.kind = (u > 0x7fffffffffffffffULL) ? int_arg::ull
                                                        : int_arg::ll;
                 v.k.bits = u;
+            }
+            if(errno == ERANGE)
+            {
+                return bad();
             }
             p = e;
             return v;
